@@ -7,7 +7,7 @@ durable micro-steps) to /repo's current code:
          verif_trace.go: sqlite3_auto_extension + sqlite3_trace_v2, injected by
          the overlay into internal/db).  Seeded workloads (first contact of new
          users, LMTP deliveries to several recipients, APPEND of multipart mail
-         with out-of-line parts, UID COPY, UID STORE incl. Junk, EXPUNGE, CLOSE,
+         with out-of-line parts, UID COPY, COPY, UID STORE incl. Junk, EXPUNGE, CLOSE,
          CREATE/RENAME/DELETE incl. hierarchies and RENAME INBOX, SUBSCRIBE) run
          over real IMAP/LMTP sessions; per operation the observed sequence of
          write statements (kind + table, BEGIN/COMMIT/ROLLBACK; SELECT/PRAGMA
@@ -150,6 +150,7 @@ class Plan:
                 else:
                     line = {"select": lambda: "SELECT %s" % st["name"],
                             "uidcopy": lambda: "UID COPY %s %s" % (set_text(st["set"]), st["dest"]),
+                            "copy": lambda: "COPY %s %s" % (set_text(st["set"]), st["dest"]),
                             "uidstore": lambda: "UID STORE %s %s (%s)" % (set_text(st["set"]), {"+": "+FLAGS", "-": "-FLAGS", "=": "FLAGS"}[st["mode"]], " ".join(st["flags"])),
                             "expunge": lambda: "EXPUNGE", "close": lambda: "CLOSE",
                             "create": lambda: "CREATE %s" % st["name"], "delete": lambda: "DELETE %s" % st["name"],
@@ -247,6 +248,8 @@ class ModelSide:
             return []
         if k == "uidcopy":
             o = "OUidCopy %d %s %s" % (sel, coq_set(st["set"]), C.coq_str(st["dest"]))
+        elif k == "copy":
+            o = "OCopy %d %s %s" % (sel, coq_set(st["set"]), C.coq_str(st["dest"]))
         elif k == "uidstore":
             o = "OUidStore %d %s %s %s" % (sel, coq_set(st["set"]), {"+": "SAdd", "-": "SDel", "=": "SSet"}[st["mode"]], coq_flags(st["flags"]))
         elif k == "expunge":
@@ -297,7 +300,7 @@ def uid_of_store(d7):
     return {"user_db_%d" % row[0]: row[1] for row in (d7.get("users") or [])}
 
 
-NEEDS_SEL = ("uidcopy", "uidstore", "expunge", "close")
+NEEDS_SEL = ("uidcopy", "copy", "uidstore", "expunge", "close")
 
 
 def digest_trace(script, plan, res):
@@ -408,7 +411,7 @@ def gen_script(rng, n, users=("u", "v"), crashy=False):
                 sc.append({"k": "select", "u": u, "name": "INBOX"})
                 seld[u] = "INBOX"
             a = rng.randint(1, 3)
-            sc.append({"k": "uidcopy", "u": u, "set": [("range", a, a + rng.randint(0, 2))], "dest": rng.choice(sorted(names[u]) + ["Nope"])})
+            sc.append({"k": rng.choice(["uidcopy", "uidcopy", "copy"]), "u": u, "set": [("range", a, a + rng.randint(0, 2))], "dest": rng.choice(sorted(names[u]) + ["Nope"])})
         elif r < 0.66:
             if u not in seld:
                 sc.append({"k": "select", "u": u, "name": "INBOX"})
